@@ -62,6 +62,7 @@ type seqState struct {
 // the event stream of the operation is processed, because automatic removals (eviction, expiration)
 // may interleave with the sub-operations of one call (e.g. BulkGet installing several keys).
 type subOp struct {
+	now     int64 // the model clock when the sub-operation was decided (a loader may have moved it)
 	k       int
 	remove  bool
 	v       int
@@ -82,14 +83,26 @@ type subOp struct {
 }
 
 func (s *seqState) pendWrite(k, v int, kind string) {
-	s.pending = append(s.pending, &subOp{k: k, v: v, kind: kind})
+	s.pending = append(s.pending, &subOp{now: s.m.now, k: k, v: v, kind: kind})
 }
-func (s *seqState) pendRemove(k int) { s.pending = append(s.pending, &subOp{k: k, remove: true}) }
+func (s *seqState) pendRemove(k int) {
+	s.pending = append(s.pending, &subOp{now: s.m.now, k: k, remove: true})
+}
 func (s *seqState) pendLoadWrite(k, v int, kind string) {
-	s.pending = append(s.pending, &subOp{k: k, v: v, kind: kind, fromCall: true})
+	s.pending = append(s.pending, &subOp{now: s.m.now, k: k, v: v, kind: kind, fromCall: true})
 }
 func (s *seqState) pendLoadRemove(k int) {
-	s.pending = append(s.pending, &subOp{k: k, remove: true, fromCall: true})
+	s.pending = append(s.pending, &subOp{now: s.m.now, k: k, remove: true, fromCall: true})
+}
+
+// loaderRuns: the model reaches the point where the real operation invokes its loader; a loader
+// that takes time moves the clock (LoadPlan.Adv), everything decided afterwards (installation,
+// refresh-failure deadlines) happens at the later clock.
+func (s *seqState) loaderRuns(op *Op) {
+	if a := planOf(op).Adv; a > 0 {
+		s.m.now = satAdd(s.m.now, a)
+		s.m.Probes["loader-moved-the-clock"]++
+	}
 }
 
 func (s *seqState) firstPending(k int) *subOp {
@@ -104,6 +117,12 @@ func (s *seqState) firstPending(k int) *subOp {
 // applySub applies a sub-operation and returns the deletion event it must produce.
 func (s *seqState) applySub(p *subOp) *expEvent {
 	p.applied = true
+	if p.now != 0 && p.now < s.m.now {
+		// decided at an earlier clock than the operation's final one (a later loader call moved it)
+		final := s.m.now
+		s.m.now = p.now
+		defer func() { s.m.now = final }()
+	}
 	if p.remove {
 		return s.m.remove(p.k)
 	}
@@ -840,8 +859,15 @@ func (s *seqState) matchEvents(op *Op, evs []Event) {
 		}
 		if p.mayDiscard {
 			m.Probes["load-result-discarded-or-kept-after-eviction"]++
-			e, ok := s.r.C.GetEntryQuietly(p.k)
-			if p.remove || !ok || e.Value != p.v {
+			// look at the table itself: the installed entry may already be past its own deadline
+			// again when the operation ends (a later loader call of the same operation took time)
+			kept := false
+			for _, e := range otter.VerifRawEntries(s.r.C) {
+				if e.Key == p.k && e.Value == p.v {
+					kept = true
+				}
+			}
+			if p.remove || !kept {
 				p.applied = true
 				continue
 			}
